@@ -6,7 +6,7 @@ v1, v2c, v3; sync and async) against an independent MIB-serving agent (harness/p
 list(walk) must equal the entries strictly below the base, in order, each once."""
 import os
 
-from lib import codec, gen, vf
+from lib import codec, gen, pylayer, vf
 import ber
 
 
@@ -136,6 +136,10 @@ def main(argv):
                                 % (sc["version"], sc["mode"], kind, st["args"], len(ents), mib["cap"], mib["pad"], how, len(out["items"]), len(wants)),
                                 {"scenario": dict(sc, steps=[st]), "got": out["items"][:50], "expected": wants[:50], "ending": out["ending"]},
                                 key="walk-subtree:" + how.split(" ")[0])
+    # ---- the Python layer alone (single calls, iterators, several objects on one session) on scripted socket results,
+    # against Model.PyLayer (lib/pylayer.py): what the socket hands over reaches the right caller, once, in order
+    n_pl, d_pl = pylayer.run(c, cexe, c.rng, 1500 if thorough else 300, "C05")
+    c.coverage["python_layer_cases"] = n_pl
     return c.finish(
         rule="%d walks: %d random MIBs (0..45 entries; multi-octet arcs 127/128/16383/16384/2^32-1; siblings sharing byte prefixes; entries "
              "before and after the subtree) x bases (subtree, leaf, absent, last subtree, whole tree) x {getnext, getbulk max_repetitions "
